@@ -228,7 +228,7 @@ func runC02(r *ev.Run) {
 	c02CounterEdges(r, judge)
 
 	// --- seed-rotated 4-man classes last (cut by the internal deadline if need be)
-	extra := parseClasses(seedFour(r, 0, 1, 10))
+	extra := parseClasses(seedFour(r, 0, 0, 10))
 	r.Set("classes", append(classNames(universe.ThreeMan()), classNames(extra)...))
 	u1(extra)
 	r.Set("u1_positions", u1pos.Load())
@@ -248,7 +248,7 @@ func runC02(r *ev.Run) {
 // man of any kind and colour anywhere (or none); White plays the double
 // push. Every such valid position is also mirrored (Black pushes).
 func c02EPFamily(r *ev.Run, judge func(b *board.Board, child *refchess.Pos, mk func() c02Case)) int64 {
-	files := ev.Pick(r, []int{0, 3, 7}, []int{0, 1, 2, 3, 4, 5, 6, 7})
+	files := ev.Pick(r, []int{int(r.Seed % 8), int((r.Seed + 3) % 8), int((r.Seed + 7) % 8)}, []int{0, 1, 2, 3, 4, 5, 6, 7})
 	extras := ev.Pick(r, []int8{0, 3, 4, 5, -3, -4, -5}, []int8{0, 1, 2, 3, 4, 5, -1, -2, -3, -4, -5})
 	type job struct {
 		f    int
